@@ -1311,24 +1311,16 @@ Proof. vm_compute. split; reflexivity. Qed.
 
 (* ------------------------------------------------------------------ c.sessionKey is injective *)
 Definition undec (l : list N) : N := fold_left (fun a c => a * 10 + (c - 48)) l 0.
-Definition nrange (k : nat) : list N := map N.of_nat (seq 0 k).
+Ltac dec_done :=
+  split; [unfold undec; cbn [fold_left]; lia
+         | intros c Hc; cbn [In] in Hc; repeat (destruct Hc as [<-|Hc]; [lia|]); contradiction].
+Ltac dec_level :=
+  cbn [dec_aux]; match goal with |- context [N.eqb ?x 0] => destruct (N.eqb_spec x 0) end; [dec_done|].
 
-Lemma nrange_In n k : (N.to_nat n < k)%nat -> In n (nrange k).
-Proof. intros Hn. apply in_map_iff. exists (N.to_nat n). split; [apply N2Nat.id | apply in_seq; lia]. Qed.
-
-Definition dec_ok (n : N) : bool :=
-  N.eqb (undec (dec n)) n && forallb (fun c => N.leb 48 c && N.leb c 57) (dec n).
-
-(* genuinely finite: every uint16 value is checked by computation *)
-Lemma dec_ok_all : forallb dec_ok (nrange (N.to_nat 65536)) = true.
-Proof. vm_compute. reflexivity. Qed.
-
+(* %d of a uint16: at most five digits, all in '0'..'9', and reading them back gives the number *)
 Lemma dec_spec n : n < 65536 -> undec (dec n) = n /\ (forall c, In c (dec n) -> 48 <= c <= 57).
 Proof.
-  intros Hn. pose proof dec_ok_all as Hall. rewrite forallb_forall in Hall.
-  assert (Hlt : (N.to_nat n < N.to_nat 65536)%nat) by lia.
-  specialize (Hall n (nrange_In _ _ Hlt)). unfold dec_ok in Hall. apply andb_true_iff in Hall as [H1 H2].
-  split; [apply N.eqb_eq; exact H1|]. intros c Hc. rewrite forallb_forall in H2. specialize (H2 c Hc). lia.
+  intros Hn. unfold dec. dec_level. dec_level. dec_level. dec_level. dec_level. exfalso. lia.
 Qed.
 
 Lemma hexd_inj a b : a < 16 -> b < 16 -> hexd a = hexd b -> a = b.
